@@ -40,6 +40,10 @@ static void body(mvprog::PT& p) {
         if (op == 'y') { thread_yield(); continue; }
         if (op == 'p') { int n = pmc_choose(3, PMC_PROG, 0, "pad yields"); for (int k = 0; k < n; k++) thread_yield(); continue; }
         if (op == 'I') { int k = p.ops[++i] - '0'; auto& q = G->prog.pts[k]; G->log += 'I'; G->log += q.done ? 'd' : 'r'; if (q.th && !q.done) thread_interrupt(q.th, EINTR); continue; }
+        if (op == 'W') {      // a stray interrupt lands on the pooled worker of this creator's oldest un-joined joinable task (which may have finished already)
+            if (!mine.empty() && mine.front()->ctrl->th) { G->log += 'W'; thread_interrupt(mine.front()->ctrl->th, EINTR); }
+            continue;
+        }
         if (op == 'c' || op == 'j') {
             Task* t = new Task; t->id = G->tasks.size(); t->body = p.ops[++i]; t->joinable = op == 'j'; G->tasks.push_back(t);
             if (op == 'c') { thread* th = G->pool->thread_create(task_entry, t); if (!th) pmc_violation("create-failed", "task %d", t->id); }
@@ -102,6 +106,7 @@ static const PmcConfig CFG[] = {
     {"1:jyJ|jnJ",        3, {1,2}, {0,0}, {0,0}, {0,0}, "two vCPUs share the pool: join handshake (joiner first / worker first) across vCPUs"},
     {"2:cy,jzJ|cn",      3, {1,2}, {0,0}, {0,0}, {0,0}, ""},
     {"1:jy|cn",          3, {1,2}, {0,0}, {0,0}, {0,0}, "pool deletion has to join a still running joinable worker"},
+    {"2:jnpWpjypJpJ",    3, {0,0}, {0,0}, {0,0}, {0,0}, "the same with every arrival order"},
     {"1:pjypJ,pI0",      3, {0,0}, {0,0}, {0,0}, {0,0}, "a stray interrupt lands on the joiner (every arrival order)"},
     {"1:jzJ|yI0",        3, {1,2}, {0,0}, {0,0}, {0,0}, "... from another vCPU"},
     {"0:cy,jnJ",         3, {0,0}, {0,0}, {0,0}, {0,0}, "capacity 0: plain threads"},
